@@ -2,6 +2,23 @@
 BASELINE_CMD = ("cd /repo && /venv/bin/python -m pytest -ra -q -p no:cacheprovider --timeout=900 "
                 "--continue-on-collection-errors")
 CHECKS = {
+    'C01': dict(
+        category='proof',
+        text=('Modular deductive check of chi.LogLikelihood (constructor, time-grid arrangement, __call__, compute_pointwise_ll, '
+              'evaluateS1): the mechanistic model and the error models are contract stubs that record their arguments, so at every call '
+              'site it is proved that the error model of output o receives exactly its own parameter slice, the predictions Y_o(t) at its '
+              'own time-sorted measurement times and the paired observations, that the value is the sum of the per-output contributions, '
+              'that pointwise values are output-major in time order, that evaluateS1 assembles the gradient at the published offsets and '
+              'returns the same score, and that every object the constructor accepts can be evaluated.  Exhaustive over all order types of '
+              'the time grids (ties within and across outputs; representative times are nearly coincident floats so that tolerance-based '
+              'matching is exposed) for up to 2 (quick) / 3 (thorough) outputs, all 1/2-parameter error-model assignments; parameters and '
+              'predictions symbolic.  The per-observation density itself is C04.'),
+        design_ref='DESIGN.md section 4 (C01)',
+        note=('Assumed contract of MechanisticModel.simulate (ODE solver external); error models by their C04 contracts; parametricity of the '
+              'grid code in the time values (only comparison/sorting/hashing); structural bounds as stated; real numpy executes the array '
+              'code on object arrays.  One genuine defect found by this check (repeated measurement times) was repaired: fix commit b8619e1.'),
+        technique='contract-based modular verification: real code executed symbolically against recording contract stubs; exhaustive order-type enumeration',
+    ),
     'C04': dict(
         category='proof',
         text=('Deductive proof, for symbolic numbers of observations (n >= 1) and mechanistic parameters (p >= 0) and all real '
@@ -74,6 +91,7 @@ NOT_APPLICABLE = {}
 
 # property id -> contract module (a module may exist before the property is claimed in CHECKS)
 CHECK_MODULES = {
+    'C01': 'contracts.c01',
     'C04': 'contracts.c04',
     'C05': 'contracts.c05',
     'C06': 'contracts.c06',
